@@ -139,13 +139,30 @@ PROPS = {
         "trusted_base": ["modelled, not verified: crc32fast, data-encoding BASE32_NOPAD"],
     },
     "C07": {
-        "claim": "TODO",
-        "note": "TODO",
+        "claim": "De.v mirrors the deserializer of rust/candid/src/de.rs as it is -- order of unroll_type / check! / add_cost / reads in every "
+                 "deserialize_* entry, the primitive-vector, big-number and blob fast paths, the field merge of the struct MapAccess, the variant "
+                 "label protocol, recoverable_visit_some (back-tracking keeps the spent budget), deserialize_ignored_any, IDLDeserialize::new_with_config "
+                 "/ get_value_with_type / done -- for the IDLValue and IgnoredAny visitors, threading both cost counters; it is compared with "
+                 "IDLDeserialize on VALUES AND BOTH COSTS, exactly, for every generated message, expected-type list and quota pair. Coq theorems (closed, no "
+                 "axioms) on that model, for all inputs: metering is neutral (a metered run stops on the quota or equals the unmetered run, counters "
+                 "included), monotone in both quotas, the cost of a successful decode is independent of the quotas; every value returned or skipped is "
+                 "charged >= 1 to the decoding counter and, when skipped, to the skipping counter (so zero-sized elements are not free); the budget is never "
+                 "overdrawn, hence under quota q at most q values are returned.",
+        "note": "The upper bound against the cost model documented with set_decoding_quota (cost <= 4 x model) is NOT a theorem: it is the predicate "
+                "p.c07.upper on generated messages decoded at their own types (measured worst ratio 3.5). Native (non-IDLValue) visitors are not in the "
+                "model; for them the laws are only evaluated as predicates by the checks of C01/C08 where those are claimed. The stack guard is not modelled.",
         "props_file": "props/C07.v",
         "shards": (8, 16),
-        "rule": "TODO",
+        "rule": "cases: 120 (x15 thorough) random messages (0-3 arguments over 0-4 recursive definitions, ids partly spelled as names of 1-20 bytes incl. "
+                "non-ASCII, optional LEB padding) decoded untyped and at the same / mutated / shortened / extended expected types, each under quota pairs "
+                "{none, huge, exact cost, cost-1 on either counter, halves, random}; hostile headers; 2 byte-level mutants per message; vectors of "
+                "null / reserved / empty record / every primitive width / nat / int / text / opt of lengths 0,1,2,7,40 decoded at their type, at opt and "
+                "reserved supertypes, skipped entirely and under a failing opt. p.c07.laws evaluates neutrality, monotonicity (49 quota pairs around the "
+                "measured cost), independence and the lower bound on the implementation alone. Non-trivial = some value has more than one node, or the "
+                "expected types differ from the wire types.",
         "assumptions": COMMON_ASSUME,
-        "trusted_base": [],
+        "trusted_base": ["modelled, not verified: serde's Visitor plumbing between Deserializer and IDLValueVisitor / IgnoredAny (transcribed from serde 1.0.224), "
+                         "the stack guard (RecursionDepth), binread's header reader (its model Wire.dec_header is the one checked by C02)"],
     },
     "C09": {
         "claim": "Coq theorems (closed, no axioms) over executable mirrors of every (S)LEB128 codec in the code: Nat::decode, Int::decode, the "
